@@ -141,3 +141,27 @@ CHECKS["C06"] = dict(
         technique="exhaustive enumeration of the result space reachable from the setting-form x phrase-length grid, with grammar and re-acceptance oracles",
         ref="DESIGN.md 3/C06"),
 )
+
+CHECKS["C04"] = dict(
+    level="exploration",
+    jobs=lambda tier: [dict(name="c04asan", variant="asan", sources=["e_c04.c"] + RT),
+                       dict(name="c04msan", variant="msan", sources=["e_c04.c"] + RT, flags=["-DVH_MSAN"])],
+    coverage=_cov("on the ASan+UBSan build and again on the MSan build, every argument in an exact-size heap block: salt field of each of 16 "
+                  "methods at every length 0..600 and {1000,4096,32767,32768,40000,70000}, with/without terminator; phrases of every length "
+                  "0..600 and 4096; data object at each of 16 alignments x 2 fills x 4 entry points; crypt_rn sizes {INT_MIN,-1,0,1,2,3,13,383..385,"
+                  "32767..32769} with a block of exactly that size; gensalt prefixes x counts x nrbytes x 15 output sizes; every generated "
+                  "setting of the grammar; the complete single-edit neighbourhood (24 substitutions, deletion, duplication, truncation at every "
+                  "position) of 56 base settings; canaries in data->setting/input; distinct_nontrivial = distinct successful result strings"),
+    assumptions=["nrbytes < 0 with non-NULL rbytes and sizes larger than the real buffer are caller contract violations and are not exercised",
+                 "a case interrupted by the 4 s per-case timer is counted budget_skipped, never a violation"],
+    nonvacuous=lambda s, t: None if s.get("successes", 0) > 5000 and s.get("failures", 0) > 5000 else "too few successes/failures",
+    deadline=dict(quick=400, thorough=1700),
+    manifest=dict(
+        text="Bounded exhaustive exploration with sanitizers as the oracle: the stated finite grids of lengths, positions, edits, alignments and "
+             "size arguments are enumerated completely against the real entry points compiled with ASan+UBSan and with MSan; every string, "
+             "object and buffer is an exact-size heap block and the application-owned fields carry canaries, so any out-of-bounds read/write, "
+             "undefined operation, use of uninitialised memory or stray write is reported for the specific case.",
+        note="gcc ASan+UBSan and clang MSan builds of the working tree; value space of bytes is 24 representative bytes per edited position; costs above the compute budget are cut by a per-case timer.",
+        technique="exhaustive enumeration of argument-shape grids on the sanitizer-instrumented implementation (sanitizer + canaries as oracle)",
+        ref="DESIGN.md 3/C04"),
+)
